@@ -35,6 +35,8 @@ pub struct Func {
 #[derive(Debug)]
 struct LoopEnv {
     start: usize,
+    // statement after closing 'continue' of this loop, break jumps here
+    end: usize,
     // this is needed to destroy envs created inside loop when using continue or break
     total_envs_at_loop_creation: usize,
 }
@@ -43,6 +45,8 @@ pub struct Interpreter<'a, T: IO> {
     current: usize,
     statements: Vec<parser::Stmt>,
     loops: Vec<LoopEnv>,
+    // loops entered before current function call started belongs to caller
+    loops_at_fn_call: usize,
     return_addrs: Vec<usize>,
     scopes: Vec<HashMap<String, Option<DataType>>>,
     lists: Vec<Vec<DataType>>,
@@ -80,6 +84,7 @@ impl<'a, T: 'a + IO> Interpreter<'a, T> {
             current: 0,
             statements,
             loops: Vec::new(),
+            loops_at_fn_call: 0,
             return_addrs: Vec::new(),
             scopes: vec![root_scope],
             lists: Vec::new(),
@@ -126,57 +131,47 @@ impl<'a, T: 'a + IO> Interpreter<'a, T> {
             parser::Stmt::Loop(_, _) => {
                 // consuming loop
                 self.current += 1;
+                let loop_start = self.current;
+
+                // finding where this loop ends, closing continue comes right after loop's block
+                self.skip_block()?;
+                let loop_end = match self.statements.get(self.current) {
+                    Some(parser::Stmt::Continue(_, _)) => self.current + 1,
+                    _ => {
+                        self.current = loop_start - 1;
+                        let (line, file_name) = self.extract_err_meta_stmt(self.current)?;
+                        return Err(RuntimeError(line, file_name, "Loop block wasn't closed".to_string()));
+                    },
+                };
+                self.current = loop_start;
 
                 // saving loop start to reuse in continue statement
-                self.loops.push(LoopEnv { start: self.current, total_envs_at_loop_creation: self.scopes.len()});
+                self.loops.push(LoopEnv { start: loop_start, end: loop_end, total_envs_at_loop_creation: self.scopes.len()});
 
             },
             parser::Stmt::Continue(_, _) => {
+                if self.loops.len() <= self.loops_at_fn_call {
+                    let (line, file_name) = self.extract_err_meta_stmt(self.current)?;
+                    return Err(RuntimeError(line, file_name, "Continue outside of loop".to_string()));
+                }
                 // destroying envs that was created inside loop
                 let last_loop_env_index = self.loops.len() - 1;
-                let total_envs_created_inside_loop = self.scopes.len() - self.loops[last_loop_env_index].total_envs_at_loop_creation;
-                for _ in 0..total_envs_created_inside_loop {
-                    self.scopes.pop();
-                }
+                self.scopes.truncate(self.loops[last_loop_env_index].total_envs_at_loop_creation);
 
                 let loop_start = self.loops[last_loop_env_index].start;
 
                 self.current = loop_start;
             },
             parser::Stmt::Break(_, _) => {
-                self.current += 1;
-
-                // len <= 0 means no new environment was made inside loop
-                if self.loops.len() > 0 {
-                    // destroying all envs that was created inside loop
-                    let last_loop_env_index = self.loops.len() - 1;
-                    let total_envs_created_inside_loop = self.scopes.len() - self.loops[last_loop_env_index].total_envs_at_loop_creation;
-                    for _ in 0..total_envs_created_inside_loop {
-                        self.scopes.pop();
-                    }
+                if self.loops.len() <= self.loops_at_fn_call {
+                    let (line, file_name) = self.extract_err_meta_stmt(self.current)?;
+                    return Err(RuntimeError(line, file_name, "Break outside of loop".to_string()));
                 }
+                // destroying loop env and all envs that was created inside loop
+                let loop_env = self.loops.pop().unwrap();
+                self.scopes.truncate(loop_env.total_envs_at_loop_creation);
 
-                // destroying loop env
-                self.loops.pop();
-
-                let mut stack: Vec<char> = Vec::new();
-                loop {
-                    if let parser::Stmt::Loop(_, _) = self.statements[self.current] {
-                        stack.push('{');
-                    }
-
-                    if let parser::Stmt::Continue(_, _) = self.statements[self.current] {
-                        stack.pop();
-                        if stack.is_empty() {
-                            // consuming Stmt::Continue
-                            self.current += 1;
-                            break;
-                        }
-                    }
-
-                    // skipping statements in block of loop
-                    self.current += 1;
-                }
+                self.current = loop_env.end;
             },
             parser::Stmt::BlockStart(_, _) => {
                 self.current += 1;
@@ -1063,6 +1058,7 @@ impl<'a, T: 'a + IO> Interpreter<'a, T> {
     fn interpret_func_call_expr(&mut self, f: parser::FunctionCall) -> Result<DataType, PakhiErr> {
         let env_count_before_fn_call = self.scopes.len();
         let loop_count_before_fn_call = self.loops.len();
+        let callers_loops_at_fn_call = self.loops_at_fn_call;
 
         match *f.expr.clone() {
             parser::Expr::Primary(parser::Primary::Var(func_token), _, _) => {
@@ -1099,6 +1095,7 @@ impl<'a, T: 'a + IO> Interpreter<'a, T> {
                         self.scopes.push(root_env);
 
                         self.return_addrs.push(self.current);
+                        self.loops_at_fn_call = loop_count_before_fn_call;
 
                         // pointing current to functions starting statement
                         self.current = func.starting_statement;
@@ -1139,6 +1136,7 @@ impl<'a, T: 'a + IO> Interpreter<'a, T> {
             self.current = self.return_addrs.pop().unwrap();
             // return can happen inside loop, loops entered by this call are finished
             self.loops.truncate(loop_count_before_fn_call);
+            self.loops_at_fn_call = callers_loops_at_fn_call;
 
             let env_count_after_fn_call = self.scopes.len();
             let envs_created_inside_fn = env_count_after_fn_call - env_count_before_fn_call;
